@@ -270,3 +270,135 @@ def callee_edges_and_consts(prog, body, depth=0, seen=None):
                 if tu and tu in prog.by_id:
                     consts |= callee_edges_and_consts(prog, prog.by_id[tu], depth + 1, seen)
     return consts
+
+
+# ----------------------------------------------------------------------------- partial evaluation from the middle of a body
+class _Unk:
+    def __repr__(self):
+        return 'UNK'
+
+
+UNK = _Unk()
+
+
+class PartialInterp(Interp):
+    """`Interp` started in the middle of a body with only some locals known (a scanning loop right after it drew a
+    character): unknown locals read as UNK and UNK propagates through moves, aggregates and calls; a *decision* on UNK
+    (a switch, an arithmetic result that is needed) raises Unknown — fail closed."""
+
+    def place(self, body, env, pl):
+        if pl['l'] not in env:
+            return UNK
+        v = env[pl['l']]
+        for e in pl['p']:
+            if v is UNK:
+                return UNK
+            if e == 'deref':
+                continue
+            if isinstance(e, dict) and 'dc' in e:
+                continue
+            if isinstance(e, dict) and 'f' in e:
+                if isinstance(v, tuple) and v[0] == 'adt':
+                    fs = v[3]
+                elif isinstance(v, tuple) and v[0] == 'tuple':
+                    fs = v[1]
+                else:
+                    return UNK
+                if e['f'] >= len(fs):
+                    return UNK
+                v = fs[e['f']]
+                continue
+            return UNK
+        return v
+
+    def rvalue(self, body, env, rv, depth):
+        k = rv['k']
+        try:
+            if k == 'binop':
+                a, b = self.operand(body, env, rv['a'], depth), self.operand(body, env, rv['b'], depth)
+                if a is UNK or b is UNK:
+                    return UNK
+            if k == 'unop':
+                if self.operand(body, env, rv['a'], depth) is UNK:
+                    return UNK
+            if k == 'cast':
+                if self.operand(body, env, rv['op'], depth) is UNK:
+                    return UNK
+            if k == 'discr':
+                if self.place(body, env, rv['pl']) is UNK:
+                    return UNK
+            return Interp.rvalue(self, body, env, rv, depth)
+        except Unknown:
+            return UNK
+
+    def walk(self, body, start_bb, env, outcome, max_steps=400, fn_params=None):
+        """run from start_bb; `outcome(bb)` is asked on entering every block and ends the walk when it answers.
+        fn_params: {parameter index of `body`: local body} for `fn(..)` / `impl Fn` parameters bound at the call site"""
+        from analysis import trace_operand, single_origin
+        fn_params = fn_params or {}
+        bb = start_bb
+        env = dict(env)
+        for _ in range(max_steps):
+            r = outcome(bb)
+            if r is not None:
+                return r
+            blk = body.blocks[bb]
+            for st in blk['stmts']:
+                if st['k'] != 'assign':
+                    continue
+                if st['pl']['p']:
+                    env[st['pl']['l']] = UNK
+                    continue
+                env[st['pl']['l']] = self.rvalue(body, env, st['rv'], 0)
+            t = blk['term']
+            tk = t['k']
+            if tk == 'goto':
+                bb = t['target']
+            elif tk == 'switch':
+                try:
+                    d = self.operand(body, env, t['discr'], 0)
+                except Unknown:
+                    d = UNK
+                if not isinstance(d, int):
+                    raise Unknown('decision on an unknown value at bb%d' % bb)
+                nxt = t['otherwise']
+                for v, tb in t['targets']:
+                    if v == d:
+                        nxt = tb
+                bb = nxt
+            elif tk == 'return':
+                return 'return'
+            elif tk in ('drop', 'assert'):
+                bb = t['target']
+            elif tk == 'call':
+                if t.get('target') is None:
+                    raise Unknown('diverging call')
+                c = Call(body, bb, t)
+                val = UNK
+                try:
+                    vals = [self.operand(body, env, a, 0) for a in c.args]
+                    bound = None
+                    if fn_params and c.ruid is None:
+                        fop = t['func'] if c.is_indirect else (c.args[0] if c.args and (c.callee or '') in ('std::ops::Fn::call', 'std::ops::FnMut::call_mut', 'std::ops::FnOnce::call_once') else None)
+                        fo = single_origin(trace_operand(body, fop, through_calls=set())) if fop is not None and fop.get('k') != 'const' else None
+                        if fo is not None and fo.kind == 'param' and not fo.proj:
+                            bound = fn_params.get(fo.data)
+                    if bound is not None:
+                        if not c.is_indirect:
+                            # Fn::call(f, (args,)): the argument tuple
+                            tv = vals[1] if len(vals) == 2 else UNK
+                            vals = list(tv[1]) if isinstance(tv, tuple) and tv[0] == 'tuple' else [UNK]
+                        if not any(v is UNK for v in vals) and not bound.is_closure:
+                            val = Interp(self.prog, fuel=2000).run(bound, vals, 1)
+                    elif not any(v is UNK for v in vals):
+                        val = Interp(self.prog, fuel=2000).call(body, c, vals, 0)
+                except Unknown:
+                    val = UNK
+                if t['dest']['p']:
+                    env[t['dest']['l']] = UNK
+                else:
+                    env[t['dest']['l']] = val
+                bb = t['target']
+            else:
+                raise Unknown('terminator %s' % tk)
+        raise Unknown('walk too long')
